@@ -44,6 +44,19 @@ def tmpdir():
 ODD_DIRS = ["rep[2]", "two words", "x*y", "q?", "\u00fcn\u00ef", "[ab]", "{a,b}", "100%", "-dash", "dot.d"]
 
 
+def through_symlink(name="f.h5"):
+    """a fresh path spelled <dir>/inputs_k/../<name> where inputs_k is a symbolic link to a directory two levels further down: the
+    operating system resolves the link before the "..", a purely lexical normalisation (os.path.abspath) does not - the same spelling
+    must name the same file for the writer and for the reader"""
+    _counter[0] += 1
+    d = tmpdir()
+    real = os.path.join(d, "store_%d" % _counter[0], "run")
+    os.makedirs(real, exist_ok=True)
+    link = os.path.join(d, "inputs_%d" % _counter[0])
+    os.symlink(real, link)
+    return os.path.join(link, "..", name)
+
+
 def fresh(name="f.h5", odd=None, own_dir=False):
     """a fresh scratch path; with odd=<int> the file lies in a sub-directory whose name holds glob characters, spaces or
     non-ASCII letters (all legal in file names: code that globs, splits or re-encodes a path shows here); with own_dir the file
@@ -69,3 +82,34 @@ def cleanup(*paths):
                 os.remove(p)
         except OSError:
             pass
+
+
+def neighbours(path):
+    """other files in the directory of `path` whose names are related to it the way working files usually are (foo.tmp.h5, foo.h5.tmp,
+    foo.h5.partial, foo.h5~, .foo.h5.swp, foo.bak.h5, foo.h5.lock): -> {file: bytes}.  Writing `path` is no business of theirs."""
+    d, name = os.path.split(path)
+    stem, ext = os.path.splitext(name)
+    out = {}
+    for i, n in enumerate([stem + ".tmp" + ext, name + ".tmp", name + ".partial", name + "~", "." + name + ".swp", stem + ".bak" + ext, name + ".lock", stem + "_tmp" + ext, "tmp_" + name]):
+        f = os.path.join(d, n)
+        if os.path.exists(f):
+            continue
+        data = ("neighbour %d of %s" % (i, name)).encode() * 3
+        with open(f, "wb") as fh:
+            fh.write(data)
+        out[f] = data
+    return out
+
+
+def changed_neighbours(files):
+    """the neighbours that no longer hold what they held; removes them all"""
+    bad = []
+    for f, data in files.items():
+        try:
+            with open(f, "rb") as fh:
+                if fh.read() != data:
+                    bad.append(os.path.basename(f) + " (changed)")
+        except OSError:
+            bad.append(os.path.basename(f) + " (gone)")
+        cleanup(f)
+    return bad
